@@ -1728,7 +1728,7 @@ def _committed_replays():
 def main(run):
     helpers.ensure()
     nw = max(1, min(16, int(os.environ.get("C09_WORKERS") or os.environ.get("VERIF_PROCS") or 16)))
-    per = int(os.environ.get("C09_PER") or run.n(60, 2000))      # C09_PER: development override only
+    per = int(os.environ.get("C09_PER") or run.n(60, 1000))      # C09_PER: development override only
     replays = _committed_replays()
     tasks = [("replay", (c, run.scratch)) for c in replays]
     # job-control histories on ptys: mostly waiting (polling), started first so that they overlap with the CPU-bound families
